@@ -92,10 +92,19 @@ pub async fn run_acb_app_to_delta_models(
     let mut delta_results = HashMap::<Security, DeltaListResult>::new();
 
     for (sec, mut sec_txs) in txs_by_sec {
-        crate::portfolio::splits::replace_global_security_splits(&mut sec_txs)?;
-
         let sec_init_status =
             all_init_status.get(&sec).map(|o| std::rc::Rc::new(o.clone()));
+
+        // An initial position belongs to the default affiliate, which must then be
+        // split along with everyone else, even if it has no Txs in this security.
+        let init_holders = match &sec_init_status {
+            Some(_) => vec![crate::portfolio::Affiliate::default()],
+            None => vec![],
+        };
+        crate::portfolio::splits::replace_global_security_splits_with_holders(
+            &mut sec_txs,
+            &init_holders,
+        )?;
 
         let deltas_res = txs_to_delta_list(&sec_txs, sec_init_status);
         delta_results.insert(sec, deltas_res);
